@@ -230,7 +230,10 @@ impl ContinuityStreamCache {
         let dirty_marker = self.dirty_marker_path(continuity_id);
         let _ = File::create(&dirty_marker);
 
-        let Ok(file) = File::create(&path) else {
+        // Readers do not take a lock: build the new sidecar aside and swap it in, so they never
+        // see a half-written (gap-free but short) file.
+        let tmp_path = path.with_extension("jsonl.tmp");
+        let Ok(file) = File::create(&tmp_path) else {
             return;
         };
         #[cfg(feature = "verif")]
@@ -253,6 +256,11 @@ impl ContinuityStreamCache {
             rip_kernel::verif::point("cache.rebuild.line", continuity_id);
         }
         let _ = writer.flush();
+        drop(writer);
+        if fs::rename(&tmp_path, &path).is_err() {
+            let _ = fs::remove_file(&tmp_path);
+            return;
+        }
         #[cfg(feature = "verif")]
         rip_kernel::verif::point("cache.rebuild.written", continuity_id);
 
